@@ -128,6 +128,7 @@ def generate(rng, focus, tier="quick"):
         "quotes0": {a: list(_quote(rng)) for a in assets},
         "ccy": rng.choice(["USD", "USD", "GBP", "EUR"]),
         "np_qty": rng.random() < 0.2,
+        "print_events": rng.random() < 0.15,      # the library's default is to print every event
     }
     ops = []
     sh = {"pids": [], "now": start, "pending": 0, "held": set(), "quotes": dict(
@@ -1675,6 +1676,21 @@ class Exec(object):
 
 def execute(plan, focus, trace=False):
     ctx = Ctx(focus, trace=trace)
+    if plan["cfg"].get("print_events"):
+        # run with settings.PRINT_EVENTS = True (the shipped default); the console output goes nowhere
+        import io
+        import sys
+        from qstrader import settings
+        real_out = sys.stdout
+        sys.stdout = io.StringIO()
+        settings.PRINT_EVENTS = True
+        try:
+            Exec(plan, ctx).run()
+        finally:
+            settings.PRINT_EVENTS = False
+            sys.stdout = real_out
+        ctx.probe("run_with_print_events_on")
+        return ctx
     ex = Exec(plan, ctx)
     ex.run()
     return ctx
@@ -1699,6 +1715,10 @@ def simplifications(plan):
     if cfg.get("np_quotes"):
         p = copy.deepcopy(plan)
         p["cfg"]["np_quotes"] = False
+        yield p
+    if cfg.get("print_events"):
+        p = copy.deepcopy(plan)
+        p["cfg"]["print_events"] = False
         yield p
     if cfg["initial_funds"] not in (0.0, 1e6):
         p = copy.deepcopy(plan)
